@@ -13,7 +13,7 @@ Lemma c28_stop_window_intermediate_refuted_lemma :
     at_stop c = [{| q_src := Some (O, O); q_text := [65] |}] /\
     map rets (prods c) = [[true]] /\
     wrote c = [] /\ file c = [] /\
-    file_complete m ps (observe c) = false.
+    file_complete false m (fun _ _ => 0) ps (observe c) = false.
 Proof.
   exists 2, [[(1, [65])]], [Cons; P 0; Stop; Cons; Stop; Stop]. vm_compute. repeat split; reflexivity.
 Qed.
